@@ -400,7 +400,7 @@ func (e *Engine) Discharge(obls []*Obligation, dir string, timeout int, all bool
 					r := runOne(context.Background(), solvers[0], writeQuery(dir, name, q), 2)
 					o.Res = SolverResult{Verdict: r.Verdict, Solver: r.Solver, Seconds: r.Seconds, All: []SolverRun{r}}
 				} else {
-					o.Res = Solve(dir, name, q, timeout, all)
+					o.Res = solveSplit(o, dir, name, q, timeout, all)
 				}
 				if o.Res.Verdict == "sat" && !o.ExpectSat && len(o.Unit.inputs) > 0 {
 					o.Model = GetModel(dir, name, q, o.Unit.inputs, o.Res.Solver, 10)
@@ -485,4 +485,34 @@ func shortPkg(p string) string {
 		return p[i+1:]
 	}
 	return p
+}
+
+// solveSplit: the whole goal first (short), then — if that is not decided — each conjunct of the
+// goal on its own; the obligation is discharged when every conjunct is.
+func solveSplit(o *Obligation, dir, name, q string, timeout int, all bool) SolverResult {
+	pieces := splitGoal(o.Goal.S, 32)
+	if len(pieces) <= 1 {
+		return Solve(dir, name, q, timeout, all)
+	}
+	first := runOne(context.Background(), solvers[0], writeQuery(dir, name, q), 3)
+	if first.Verdict == "unsat" && !all {
+		return SolverResult{Verdict: "unsat", Solver: first.Solver, Seconds: first.Seconds, All: []SolverRun{first}}
+	}
+	res := SolverResult{Verdict: "unsat", All: []SolverRun{first}}
+	marker := "(assert (not " + o.Goal.S + "))"
+	for i, p := range pieces {
+		pq := strings.Replace(q, marker, "(assert (not "+p+"))", 1)
+		r := Solve(dir, fmt.Sprintf("%s.c%d", name, i), pq, timeout, all)
+		res.All = append(res.All, r.All...)
+		res.Seconds += r.Seconds
+		if r.Solver != "" {
+			res.Solver = r.Solver
+		}
+		if r.Verdict != "unsat" {
+			res.Verdict = r.Verdict
+			res.Output = fmt.Sprintf("conjunct %d of %d: %s", i+1, len(pieces), trunc(p, 300))
+			return res
+		}
+	}
+	return res
 }
